@@ -82,7 +82,7 @@ pub fn run(ctx: &Ctx) -> i32 {
                 return;
             }
         };
-        let nsent = if quick { 30 } else { 100 };
+        let nsent = per_case(if quick { 30 } else { 100 });
         for s in 0..nsent {
             let budget = *rng.pick(&[1usize, 3, 6, 12, 25, 50]);
             let Some(mut w) = wl::random_sentence(&c.bnf, rng, budget) else { continue };
